@@ -40,6 +40,12 @@ Theorem C13_default_period : tcp_period None = 600 /\ udp_period None = 600.
 Proof. exact default_period. Qed.
 Print Assumptions C13_default_period.
 
+(* every listener kind that accepts UDP associations gives them timeouts.udp - and not timeouts.idle, whatever that is *)
+Theorem C13_udp_associations_take_the_udp_period : forall k idle udp,
+  udp_assoc_period k idle udp = udp_period udp.
+Proof. intros [] idle udp; reflexivity. Qed.
+Print Assumptions C13_udp_associations_take_the_udp_period.
+
 Theorem C13_source_shape :
   Gen_startup.default_timeout_reads_configured_value = true /\ Gen_startup.config_default_period_s = DEFAULT_PERIOD /\
   Gen_startup.zero_period_disables = true /\ Gen_startup.comparison_is_strict_in_ms = true /\
